@@ -14,7 +14,9 @@ def check(ctx):
         "keys present, 0x91 prefix, with_struct_map; R5 OpenTelemetry: SpanContext::new(trace_id, span_id), "
         "parent_span_id, name, start_time, end_time = begin + duration, attributes <- properties, events <- "
         "map_events(events) with Event::new(name, timestamp, properties); R6 each convert is iter -> map -> collect with "
-        "no selective adaptor, report() -> try_report() -> convert -> send with is_empty() the only early exit.")
+        "no selective adaptor, report() -> try_report() -> convert -> send with is_empty() the only early exit; R7a-R7d the Jaeger send loop "
+        "(the C20 rules, as the 'each record is transmitted exactly once' clause for Jaeger: a datagram is sent only below the limit, so the "
+        "socket cannot refuse it and abort the rest of the batch; a span is skipped only when it alone exceeds the limit).")
     ctx.not_decided = ("well-formedness of the bytes beyond ids/names/positions (the codec crates' behaviour), UTF-8 and "
                        "top-bit values, begin + duration overflow in the OpenTelemetry path (value level).")
     facts = ctx.facts("E")
@@ -24,3 +26,4 @@ def check(ctx):
     reporters.once_each(ctx, facts, "R6")
     from .. import jaeger
     jaeger.rule_fresh_buffer(ctx, facts, "R6")
+    ctx.rekeyed(lambda sub: jaeger.check_all(sub, facts), {"R1": "R7a", "R2": "R7b", "R3": "R7c", "R4": "R7d"})
